@@ -179,7 +179,9 @@ func (w *worker) judgeC09(v *verdict, p *harness.Pkg, op *harness.Op, rp *harnes
 		}
 	}
 	if validate && rp.NoEmpty && !v.violated {
-		if msg := wireValid(p, op, o.WireReq); msg != "" {
+		if msg := wireValid(p, op, o.WireReq); msg == "quirk" {
+			v.counters["wire_validator_quirk_skipped"]++
+		} else if msg != "" {
 			v.violate("req:wire-invalid:"+classifyValidation(msg), "openapi3filter rejects the client's request: "+clipStr(msg, 400)+"\n wire: "+clipStr(string(o.WireReq), 400), exp)
 		} else {
 			v.counters["wire_requests_validated"]++
@@ -232,6 +234,10 @@ func wireValid(p *harness.Pkg, op *harness.Op, wire []byte) (msg string) {
 	route, pathParams, err := rt.FindRoute(req.Method, &u)
 	if err != nil {
 		return "route: " + err.Error()
+	}
+	if route.Path != op.Path && strings.TrimSuffix(route.Path, "/") == strings.TrimSuffix(op.Path, "/") {
+		// kin-openapi v0.38's router does not distinguish "/x" from "/x/": the validator is not a reliable judge here
+		return "quirk"
 	}
 	if route.Path != op.Path || route.Method != op.Method {
 		return fmt.Sprintf("route: validator routed to %s %s, expected %s %s", route.Method, route.Path, op.Method, op.Path)
